@@ -37,6 +37,7 @@ def run(ctx):
 
 def geom(ctx, R="R-C02-geom"):
     prog = ctx.prog
+    RC = "R-C02-columns" if R.startswith("R-C02") else R
     n = 0
     for style, kaldi in sc.CONFIGS:
         g = sc.np_full_geometry(ctx, R, style, kaldi)
@@ -54,11 +55,11 @@ def geom(ctx, R="R-C02-geom"):
         # whichever way the cases are split: rows(N) = 0 below the threshold, (N + S//2)//S from it on
         sc.same(ctx, R, f, fnode, "[%s] rows of the result, as a function of N over both returns" % name, S.cond(guard, S.ZERO, frows), rows_want)
         res = S.compare(cols, fcols, domain={})
-        ctx.check(res["verdict"] == "equal", "R-C02-columns", f, node, "[%s] empty and full results have the same number of columns" % name,
+        ctx.check(res["verdict"] == "equal", RC, f, node, "[%s] empty and full results have the same number of columns" % name,
                   "the empty result has %s columns but the full one %s" % (S.show(cols), S.show(fcols)))
         want_cols = S.add(S.sym("self._bank.num_filts"), S.call("int", S.sym("self._include_energy")))
         res = S.compare(fcols, want_cols, domain={})
-        ctx.check(res["verdict"] == "equal", "R-C02-columns", f, fnode, "[%s] the result has num_filts + int(include_energy) columns" % name,
+        ctx.check(res["verdict"] == "equal", RC, f, fnode, "[%s] the result has num_filts + int(include_energy) columns" % name,
                   "the result has %s columns" % S.show(fcols))
         sc.same(ctx, R, f, g["loop_node"], "[%s] number of frames computed" % name, S.cond(guard, S.ZERO, g["loop_count"]), rows_want)
         k = g["loop_var"]
